@@ -46,7 +46,7 @@ def bounds(tier):
 def cases(tier, seed):
     out = []
     N = 4 if tier == "quick" else 6
-    progs = EXTRA + base_programs(tier)
+    progs = EXTRA + base_programs(tier, extended=True)
     for i, text in enumerate(progs):
         its = [100, 1, 2, 3] if (tier != "quick" or i < len(EXTRA) + 60) else [100, 1]
         for it in its:
